@@ -12,42 +12,63 @@ pub fn stub_format(_args: core::fmt::Arguments<'_>) -> String {
 }
 
 // ---- recorder for flume::Sender<InputStatType>::send
-pub static mut SENT_TOTAL: u32 = 0;
-pub static mut SENT_ERRORS: u32 = 0;
-pub static mut SENT_FATAL: u32 = 0;
-pub static mut SENT_RDH_SEEN: u64 = 0;
-pub static mut SENT_RDH_FILTERED: u64 = 0;
-pub static mut SENT_PAYLOAD: u64 = 0;
-pub static mut SENT_LINKS: u32 = 0;
-pub static mut SENT_FEES: u32 = 0;
-pub static mut LAST_LINK: u8 = 0;
-pub static mut LAST_FEE: u16 = 0;
-pub static mut SENT_RUN_TRIGGER: u32 = 0;
-pub static mut SENT_DATA_FORMAT: u32 = 0;
-pub static mut SENT_SYSTEM_ID: u32 = 0;
+// One static with a unique marker (see the note in support.rs: Kani 0.68 aliases zero-initialised 8-byte statics
+// with a std constant).
+pub struct InputRecorder {
+    pub marker: u64,
+    pub total: u32,
+    pub errors: u32,
+    pub fatal: u32,
+    pub rdh_seen: u64,
+    pub rdh_filtered: u64,
+    pub payload: u64,
+    pub links: u32,
+    pub fees: u32,
+    pub last_link: u8,
+    pub last_fee: u16,
+    pub run_trigger: u32,
+    pub data_format: u32,
+    pub system_id: u32,
+}
+pub static mut IREC: InputRecorder = InputRecorder {
+    marker: 0x5EED_0000_0000_0002,
+    total: 0,
+    errors: 0,
+    fatal: 0,
+    rdh_seen: 0,
+    rdh_filtered: 0,
+    payload: 0,
+    links: 0,
+    fees: 0,
+    last_link: 0,
+    last_fee: 0,
+    run_trigger: 0,
+    data_format: 0,
+    system_id: 0,
+};
 
 pub fn stub_send<T>(_s: &flume::Sender<T>, msg: T) -> Result<(), flume::SendError<T>> {
     assert!(core::mem::size_of::<T>() == core::mem::size_of::<InputStatType>());
     let st: &InputStatType = unsafe { &*(&msg as *const T as *const InputStatType) };
     unsafe {
-        SENT_TOTAL += 1;
+        IREC.total += 1;
         match st {
-            InputStatType::Error(_) => SENT_ERRORS += 1,
-            InputStatType::Fatal(_) => SENT_FATAL += 1,
-            InputStatType::RDHSeen(n) => SENT_RDH_SEEN += *n as u64,
-            InputStatType::RDHFiltered(n) => SENT_RDH_FILTERED += *n as u64,
-            InputStatType::PayloadSize(n) => SENT_PAYLOAD += *n as u64,
+            InputStatType::Error(_) => IREC.errors += 1,
+            InputStatType::Fatal(_) => IREC.fatal += 1,
+            InputStatType::RDHSeen(n) => IREC.rdh_seen += *n as u64,
+            InputStatType::RDHFiltered(n) => IREC.rdh_filtered += *n as u64,
+            InputStatType::PayloadSize(n) => IREC.payload += *n as u64,
             InputStatType::LinksObserved(l) => {
-                SENT_LINKS += 1;
-                LAST_LINK = *l;
+                IREC.links += 1;
+                IREC.last_link = *l;
             }
             InputStatType::FeeId(f) => {
-                SENT_FEES += 1;
-                LAST_FEE = *f;
+                IREC.fees += 1;
+                IREC.last_fee = *f;
             }
-            InputStatType::RunTriggerType(_) => SENT_RUN_TRIGGER += 1,
-            InputStatType::DataFormat(_) => SENT_DATA_FORMAT += 1,
-            InputStatType::SystemId(_) => SENT_SYSTEM_ID += 1,
+            InputStatType::RunTriggerType(_) => IREC.run_trigger += 1,
+            InputStatType::DataFormat(_) => IREC.data_format += 1,
+            InputStatType::SystemId(_) => IREC.system_id += 1,
         }
     }
     Ok(())
